@@ -27,7 +27,16 @@ func genLateOps(rng *rand.Rand, c *Case, unit, ooo, lateness int64) {
 	n := 10 + rng.Intn(30)
 	front := int64(3)
 	addOp := func(ts int64) {
-		c.Ops = append(c.Ops, []string{"add", strconv.Itoa(nextID), itoa(ts)})
+		tok := itoa(ts)
+		switch rng.Intn(12) { // timestamp field type variants
+		case 0:
+			tok = "f" + tok
+		case 1:
+			tok = "s" + tok
+		case 2:
+			tok = "t" + tok
+		}
+		c.Ops = append(c.Ops, []string{"add", strconv.Itoa(nextID), tok})
 		nextID++
 	}
 	lag := rng.Intn(3) == 0 // trigger lags: few deliveries
@@ -60,8 +69,9 @@ func genLateOps(rng *rand.Rand, c *Case, unit, ooo, lateness int64) {
 			}
 			addOp(t)
 		case r < 68:
-			c.Ops = append(c.Ops, []string{"add", strconv.Itoa(nextID), "none"})
+			c.Ops = append(c.Ops, []string{"add", strconv.Itoa(nextID), []string{"none", "nil", "garbage"}[rng.Intn(3)]})
 			nextID++
+			c.Stat = append(c.Stat, "unplaceable-row")
 		case r < 71:
 			addOp(farFuture + int64(rng.Intn(1000)))
 			c.Stat = append(c.Stat, "far-future-row")
@@ -95,6 +105,16 @@ func genLateOps(rng *rand.Rand, c *Case, unit, ooo, lateness int64) {
 
 func (c02) Gen(rng *rand.Rand, tier string, idx int) Case {
 	var c Case
+	if idx%15 == 14 {
+		// SQL-level stage with ALLOWEDLATENESS: re-deliveries carry the same window bounds / window_id
+		sz := []int64{1000, 500}[rng.Intn(2)]
+		o := []int64{0, sz / 2, sz}[rng.Intn(3)]
+		l := []int64{sz, 3 * sz, 20 * sz}[rng.Intn(3)]
+		c.Cfg = [][]string{{"kind", "sqltumbling"}, {"size", itoa(sz)}, {"ooo", itoa(o)}, {"late", itoa(l)}, {"now", "0"}}
+		genSQLWindow(rng, &c, sz, o+l/2)
+		c.Stat = append(c.Stat, "sql-lateness>0")
+		return c
+	}
 	switch k := rng.Intn(10); {
 	case k < 5: // tumbling with lateness
 		sizes := []int64{10, 1000, 7}
@@ -102,16 +122,21 @@ func (c02) Gen(rng *rand.Rand, tier string, idx int) Case {
 		ooo := []int64{0, size / 2, size, 2*size + 1}[rng.Intn(4)]
 		late := []int64{0, 1, size / 2, size, 3 * size, 20 * size}[rng.Intn(6)]
 		c.Cfg = [][]string{{"kind", "tumbling"}, {"mode", "et"}, {"size", itoa(size)}, {"ooo", itoa(ooo)}, {"late", itoa(late)}, {"now", "0"}}
+		if rng.Intn(12) == 0 { // TIMEUNIT not declared: numeric timestamps are unplaceable, time.Time values still work
+			c.Cfg = append(c.Cfg, []string{"tsunit", "0"})
+			c.Stat = append(c.Stat, "no-timeunit")
+		}
 		genLateOps(rng, &c, size, ooo, late)
 		c.Stat = append(c.Stat, "tumbling", "lateness="+map[bool]string{true: "0", false: ">0"}[late == 0])
-	case k < 7: // sliding, lateness 0 (late-update path of the sliding window is not modelled)
+	case k < 7: // sliding (late-update target chosen by Go map order: the driver takes the observed target as witness)
 		p := [][2]int64{{2, 1}, {3, 2}, {5, 5}, {2, 3}}[rng.Intn(4)]
 		u := []int64{1, 10, 1000}[rng.Intn(3)]
 		size, slide := p[0]*u, p[1]*u
 		ooo := []int64{0, slide, 2*size + 1}[rng.Intn(3)]
-		c.Cfg = [][]string{{"kind", "sliding"}, {"mode", "et"}, {"size", itoa(size)}, {"slide", itoa(slide)}, {"ooo", itoa(ooo)}, {"late", "0"}, {"now", "0"}}
-		genLateOps(rng, &c, slide, ooo, 0)
-		c.Stat = append(c.Stat, "sliding")
+		late := []int64{0, 1, slide, 3 * size}[rng.Intn(4)]
+		c.Cfg = [][]string{{"kind", "sliding"}, {"mode", "et"}, {"size", itoa(size)}, {"slide", itoa(slide)}, {"ooo", itoa(ooo)}, {"late", itoa(late)}, {"now", "0"}}
+		genLateOps(rng, &c, slide, ooo, late)
+		c.Stat = append(c.Stat, "sliding", "lateness="+map[bool]string{true: "0", false: ">0"}[late == 0])
 	default: // session with lateness
 		timeout := []int64{10, 1000, 3}[rng.Intn(3)]
 		ooo := []int64{0, timeout / 2, timeout, 3 * timeout}[rng.Intn(4)]
@@ -124,4 +149,9 @@ func (c02) Gen(rng *rand.Rand, tier string, idx int) Case {
 	return c
 }
 
-func (c02) Exec(c Case) [][][]string { return execWindow(c) }
+func (c02) Exec(c Case) [][][]string {
+	if isSQLWindowCase(c) {
+		return execSQLWindow(c)
+	}
+	return execWindow(c)
+}
